@@ -1207,7 +1207,9 @@ def get_signals(signal_array, frame, ea, multiplex_id, float_factory, bit_offset
                     base_type = ea.follow_ref(test_signal, "BASE-TYPE-REF")
 
             # Only get min/max values of the internal
-            lowers = ea.get_children(data_constr, "INTERNAL-CONSTRS/LOWER-LIMIT")
+            # (each step of a path needs the namespace: look the constraint elements up first, then their limits)
+            internal_constrs = ea.get_children(data_constr, "INTERNAL-CONSTRS")
+            lowers = [limit for constr in internal_constrs for limit in ea.get_children(constr, "LOWER-LIMIT")]
             if not lowers:
                 lower = None
             else:
@@ -1215,7 +1217,7 @@ def get_signals(signal_array, frame, ea, multiplex_id, float_factory, bit_offset
                 for elem in lowers:
                     if decimal.Decimal(lower.text) > decimal.Decimal(elem.text):
                         lower = elem
-            uppers = ea.get_children(data_constr, "INTERNAL-CONSTRS/UPPER-LIMIT")
+            uppers = [limit for constr in internal_constrs for limit in ea.get_children(constr, "UPPER-LIMIT")]
             if not uppers:
                 upper = None
             else:
